@@ -305,7 +305,11 @@ class ConvexPolygon(GeoBody):
 
     def __eq__(self, other):
         if isinstance(other, ConvexPolygon):
-            return hash(self) == hash(other)
+            # equal hashes alone do not prove equality (hash(-1.0) == hash(-2.0)
+            # in Python), so the vertices are compared as well
+            return hash(self) == hash(other) and set(self.points) == set(
+                other.points
+            )
         else:
             return False
 
